@@ -181,3 +181,47 @@ Proof. exact repaired_b64. Qed.
 Example tables_with_rule_refuse_modified_before_created :
   run variant_repaired sentinel_env spec witness_pok witness_sok 6 req_modified = Err EInvalidValue.
 Proof. exact repaired_modified. Qed.
+
+
+(* positive witnesses: every hypothesis of strict_sound_partial_wide_generated_tables holds of a non-trivial request,
+   and its conclusion is checked by the kernel (the reviewer's witnesses: a 2.1 identity with object_marking_refs
+   through strict parse; a 2.1 process through the strict constructor, valid even for the audited validator) *)
+Definition ex_identity_req : request :=
+  RParse false false None
+    [ (u "type", JStr (u "identity")); (u "spec_version", JStr (u "2.1"));
+      (u "id", JStr (u "identity--8d1c5bdf-5a0e-4b8e-9a3c-1f2e3d4c5b6a"));
+      (u "created", JStr (u "2016-01-01T00:00:00.000Z")); (u "modified", JStr (u "2016-01-02T00:00:00.123Z"));
+      (u "name", JStr (u "John Smith")); (u "confidence", JInt 100%Z);
+      (u "object_marking_refs", JArr [JStr (u "marking-definition--613f2e26-407d-48c7-9eca-b8e91df99dc9")]) ].
+Definition ex_identity_out : result pval :=
+  Eval vm_compute in run variant_repaired sentinel_env lib witness_pok witness_sok 8 ex_identity_req.
+
+Example hypotheses_satisfiable_identity :
+  variant_sound variant_repaired = true /\ env_ok sentinel_env = true /\
+  req_strict ex_identity_req = true /\ req_scope ex_identity_req = true /\
+  mem_ustr (u "2.1/Identity") lib_covered2 = true /\
+  run variant_repaired sentinel_env lib witness_pok witness_sok 8 ex_identity_req = ex_identity_out /\
+  match ex_identity_out with
+  | Ok (PObject oc inner dfl hc) =>
+    ustr_eqb oc (u "2.1/Identity") && negb hc &&
+    valid_obj spec_relaxed witness_pok 8 oc (encode false (PObject oc inner dfl hc)) &&
+    valid_obj_x spec witness_pok 8 oc (encode false (PObject oc inner dfl hc))
+  | _ => false
+  end = true.
+Proof. repeat split; vm_compute; reflexivity. Qed.
+
+Definition ex_process_req : request :=
+  RConstruct (u "2.1/Process") false false
+             [(u "pid", JInt 1%Z); (u "environment_variables", JObj [(u "PATH", JStr (u "/bin"))])] None.
+Definition ex_process_out : result pval :=
+  Eval vm_compute in run variant_repaired sentinel_env lib witness_pok witness_sok 6 ex_process_req.
+
+Example process_output_valid_for_audited_validator :
+  req_strict ex_process_req = true /\ req_scope ex_process_req = true /\
+  run variant_repaired sentinel_env lib witness_pok witness_sok 6 ex_process_req = ex_process_out /\
+  match ex_process_out with
+  | Ok (PObject oc inner dfl hc) =>
+    negb hc && valid_obj_x spec witness_pok 8 oc (encode false (PObject oc inner dfl hc))
+  | _ => false
+  end = true.
+Proof. repeat split; vm_compute; reflexivity. Qed.
